@@ -851,6 +851,7 @@ func getRootHash(hashKey []byte) (hash []byte, err error) {
 	if !bytes.Contains(hashKey, []byte(rootHashHeightPrefix)) {
 		return nil, types.ErrSize
 	}
-	hash = hashKey[len(hashKey)-sha256Len:]
+	// copy: hashKey may be an iterator's key buffer that is overwritten by the next step, and Tree.Load keeps the slice
+	hash = append([]byte(nil), hashKey[len(hashKey)-sha256Len:]...)
 	return hash, nil
 }
